@@ -159,6 +159,7 @@ def plan(prop, tier, seed):
         add(['hyb2', 'hyb2p', 'ev2', 'evloop', 'tb_ev', 'weak2', 'weakonly', 'grp_out', 'grp_in', 'grp_sib', 'tb2', 'tb_hy'] + multi,
             K=2 if q else 3, lazies=(True, False))
         add(['multi_shift', 'multi_shift_rev'], K=3, lazies=(True,))
+        add(['hyb2_init', 'tb_ev_init', 'ev2_init2'], K=2, caches=(True,))      # initial events: external causes that are no trigger inputs
         add(['chain3ev', 'chain3', 'shortcut3', 'shortcut3_sym'] if q else three, K=2, lazies=(True,) if q else (True, False))
         add(['hyb2', 'ev2', 'tb_ev'], K=2 if q else 3, until='symnc', caches=(False,))
         add(['hyb2'] if q else ['hyb2', 'ev2'], K=2 if q else 3, extra={'future_outputs': True})
